@@ -221,11 +221,11 @@ fn leaf_lt(syn: Syn, stored: &str, asked: &str) -> bool {
             (Ok(a), Ok(b)) => a < b,
             _ => false,
         },
-        Syn::Uuid => match (Uuid::parse_str(stored), Uuid::parse_str(asked)) {
+        Syn::Uuid | Syn::Refer => match (Uuid::parse_str(stored), Uuid::parse_str(asked)) {
             (Ok(a), Ok(b)) => a < b,
             _ => false,
         },
-        // ordering is defined for numeric / uuid syntaxes only
+        // ordering is defined for numeric / uuid / reference syntaxes only
         _ => false,
     }
 }
@@ -269,6 +269,9 @@ pub struct Alphabet {
     pub stw_enw: bool,
     pub self_uuid: bool,
     pub invalid: bool,
+    /// Empty AND/OR groups. Schema validation rejects them (`SchemaError::EmptyFilter`), so they
+    /// are not valid search filters; only checks of the rewriting step itself turn this on.
+    pub empty_groups: bool,
 }
 
 impl Alphabet {
@@ -281,6 +284,7 @@ impl Alphabet {
             stw_enw: true,
             self_uuid: false,
             invalid: true,
+            empty_groups: false,
         }
     }
 }
@@ -346,10 +350,11 @@ pub fn arb_leaf(al: &Alphabet) -> BoxedStrategy<F> {
 /// Filter trees of bounded depth/width, with NOT, nested groups, duplicate terms and empty groups.
 pub fn arb_filter(al: &Alphabet, depth: u32, width: usize) -> BoxedStrategy<F> {
     let leaf = arb_leaf(al);
+    let min = if al.empty_groups { 0 } else { 1 };
     leaf.prop_recursive(depth, (width as u32).pow(depth.min(3)) + 8, width as u32, move |inner| {
         prop_oneof![
-            4 => proptest::collection::vec(inner.clone(), 0..=width).prop_map(F::And),
-            4 => proptest::collection::vec(inner.clone(), 0..=width).prop_map(F::Or),
+            4 => proptest::collection::vec(inner.clone(), min..=width).prop_map(F::And),
+            4 => proptest::collection::vec(inner.clone(), min..=width).prop_map(F::Or),
             2 => inner.clone().prop_map(|f| F::Not(Box::new(f))),
             // AND of a positive term and a NOT: the supported shape of negation
             3 => (inner.clone(), inner.clone()).prop_map(|(p, n)| F::And(vec![p, F::Not(Box::new(n))])),
